@@ -56,18 +56,22 @@ TRUSTED_EXTRA = [
     "the decoder thread: decoder_worker is replaced by the harness (as the property's anchor prescribes) and the (codec, JitterFrame) items are read from __decoder_queue",
     "header extensions (abs_send_time from the clock, mid) are not part of the sender model; the oracle compares retransmissions with the originals byte-wise instead",
     "the remote bitrate estimator / REMB feedback (C15) and StreamStatistics (C18) run in the real receiver but are not modelled here; REMB and RR packets are filtered from the trace",
+    "wall-clock time: the names `time` and `clock` of rtcrtpsender / rtcrtpreceiver are replaced by harness shims for the duration of a case, so that the script decides how much time passes between two events",
     "the encoder: get_encoder is replaced by a scripted encoder whose pack() returns the case's payload lists; VP8/H264 packetisation itself is C16",
 ]
 RULE = ("nack/tsmap: sequences built from an unwrapped index walk (steps 1, small gaps, bursts up to 300, back-steps, duplicates, jumps around 128/32768) from origins near the 16/32-bit wrap; "
-        "sender: op lists (frames of 0..8 payloads, NACK lists aimed at history boundaries 127/128/129 back, aliases +-65536, random) with RTX on/off; "
+        "sender: op lists (frames of 0..8 payloads, NACK lists aimed at history boundaries 127/128/129 back, aliases +-65536, random, wall-clock steps 0..10 s between ops) "
+        "over negotiated codec lists of every shape (sending codec = codecs[0] with/without its own rtx, rtx of other codecs before/after, rtx before its base codec, duplicates, none); "
         "receiver: scripted packet lists incl. unknown payload types, RTX from unknown SSRC, short RTX payloads, undecodable / empty payloads, jumps over the buffer; "
-        "pair: frames of 1..8 packets (VP8 or H264 payloads), sequence/timestamp origins near the wrap, RTX on/off, header extensions on/off, network families "
+        "pair: frames of 1..8 packets (VP8 or H264 payloads), sequence/timestamp origins near the wrap, the same codec-list shapes, header extensions on/off, a scripted wall clock "
+        "(sender pauses, late feedback, slow deliveries, 0..10 s each, in half of the cases), network families "
         "clean / recover (loss, duplication, bounded reordering of first transmissions; feedback and retransmissions delivered) / chaos (everything lossy, bursts beyond the buffer) / late (holds >= 100); "
         "distinct = distinct canonical case (sha1 of JSON)")
 
 M16 = 1 << 16
 M32 = 1 << 32
 HIST = 128            # literal of the property text
+CLOCK_STEPS = [0.0, 0.001, 0.02, 0.5, 0.99, 1.0, 1.01, 2.0, 5.0, 10.0]   # seconds between two events of a script
 DRAIN = 10            # trailing always-delivered frames of the `recover` family ("while traffic continues")
 MISORDER = 100        # literal of the property text
 PT = 96
@@ -349,6 +353,122 @@ def _codec_params(codec, rtx):
     return cs
 
 
+MIMES = {"vp8": "video/VP8", "h264": "video/H264", "rtx": "video/rtx", "other": "video/other"}
+
+
+def codec_table(cfg):
+    """[[pt, name, apt|None], ...] = parameters.codecs as negotiated; the SENDING codec is the first entry.
+    Legacy cases (`codec` + `rtx`) denote [codec, its rtx]."""
+    if cfg.get("codecs"):
+        return cfg["codecs"]
+    t = [[PT, cfg.get("codec", "vp8"), None]]
+    if cfg.get("rtx"):
+        t.append([RTX_PT, "rtx", PT])
+    return t
+
+
+def table_params(table):
+    from aiortc.rtcrtpparameters import RTCRtpCodecParameters
+    return [RTCRtpCodecParameters(mimeType=MIMES[nm], clockRate=90000, payloadType=pt,
+                                  parameters=({} if apt is None else {"apt": apt})) for pt, nm, apt in table]
+
+
+def negotiated_rtx(table):
+    """the property's reading: RTX is negotiated for the sending codec iff some rtx entry names ITS payload type as apt;
+    returns the admissible RTX payload types (duplicates for the same apt are all 'as negotiated')"""
+    return [pt for pt, nm, apt in table if nm == "rtx" and apt == table[0][0]]
+
+
+def table_send_line(table):
+    return ",".join("%d:%s:%s" % (pt, "r" if nm == "rtx" else "m", "n" if apt is None else apt) for pt, nm, apt in table)
+
+
+def table_recv_line(table):
+    return ",".join("%d:%s:%s" % (pt, nm, "n" if apt is None else apt) for pt, nm, apt in table)
+
+
+def codec_shapes(rng):
+    """codec lists of every shape: the first (= sending) codec with / without an rtx entry, rtx entries of other codecs
+    before and after it, several codecs each with rtx, rtx listed before its base codec, none at all, duplicates"""
+    first = rng.choice(["vp8", "h264"])
+    other = "h264" if first == "vp8" else "vp8"
+    A, B, C = 96, 98, 102                       # media payload types
+    shape = rng.randrange(10)
+    own = [[97, "rtx", A]]
+    oth = [[99, "rtx", B]]
+    if shape == 0:
+        t = [[A, first, None]]
+    elif shape == 1:
+        t = [[A, first, None]] + own
+    elif shape == 2:
+        t = [[A, first, None], [B, other, None]] + oth                       # only the OTHER codec has rtx
+    elif shape == 3:
+        t = [[A, first, None]] + oth + [[B, other, None]]                    # ... listed before its base codec
+    elif shape == 4:
+        t = [[A, first, None]] + own + [[B, other, None]] + oth
+    elif shape == 5:
+        t = [[A, first, None]] + oth + own + [[B, other, None]]              # foreign rtx before the own one
+    elif shape == 6:
+        t = [[A, first, None], [B, other, None]] + oth + own
+    elif shape == 7:
+        t = [[A, first, None]] + own + [[101, "rtx", A]]                      # duplicate rtx for the same apt
+    elif shape == 8:
+        t = [[A, first, None], [B, other, None], [C, "other", None], [103, "rtx", C]] + oth
+    else:
+        t = [[A, first, None], [B, other, None]]
+    return t
+
+
+class Clock:
+    """the wall clock as rtcrtpsender / rtcrtpreceiver see it (time.time, clock.current_*): advanced only by the script"""
+
+    def __init__(self, t0=1700000000.0):
+        self.now = t0
+        self._saved = []
+
+    def install(self, mod):
+        import datetime
+        clk = self
+
+        class TimeShim:
+            def __init__(self, real):
+                self._real = real
+
+            def time(self):
+                return clk.now
+
+            def __getattr__(self, name):
+                return getattr(self._real, name)
+
+        class ClockShim:
+            def __init__(self, real):
+                self._real = real
+
+            def current_datetime(self):
+                return datetime.datetime.fromtimestamp(clk.now, datetime.timezone.utc)
+
+            def current_ms(self):
+                return int((self.current_datetime() - self._real.NTP_EPOCH).total_seconds() * 1000)
+
+            def current_ntp_time(self):
+                return self._real.datetime_to_ntp(self.current_datetime())
+
+            def __getattr__(self, name):
+                return getattr(self._real, name)
+
+        # only names the module really has are replaced (a refactoring that stops using one of them is not our business)
+        for name, shim in (("time", TimeShim), ("clock", ClockShim)):
+            real = getattr(mod, name, None)
+            if real is not None and hasattr(real, "__name__"):
+                self._saved.append((mod, name, real))
+                setattr(mod, name, shim(real))
+
+    def restore(self):
+        for mod, name, real in reversed(self._saved):
+            setattr(mod, name, real)
+        self._saved = []
+
+
 def _hdr_ext(on):
     from aiortc.rtcrtpparameters import RTCRtpHeaderExtensionParameters
     if not on:
@@ -368,8 +488,9 @@ class SenderStopped(Exception):
 class SenderRig:
     """A real RTCRtpSender whose random origins, track and encoder are scripted."""
 
-    def __init__(self, cfg):
+    def __init__(self, cfg, clk=None):
         self.cfg = cfg
+        self.clk = clk or Clock()
 
     async def start(self):
         import aiortc.rtcrtpsender as rs
@@ -396,10 +517,11 @@ class SenderRig:
         rs.random_sequence_number = lambda: next(seqs)
         rs.random32 = lambda: next(r32)
         rs.get_encoder = lambda codec: _Encoder()
+        self.clk.install(rs)
         self.transport = FakeTransport()
         self.track = ScriptTrack()
         self.sender = rs.RTCRtpSender(self.track, self.transport)
-        await self.sender.send(RTCRtpSendParameters(codecs=_codec_params(cfg.get("codec", "vp8"), cfg["rtx"]),
+        await self.sender.send(RTCRtpSendParameters(codecs=table_params(codec_table(cfg)),
                                                    headerExtensions=_hdr_ext(cfg.get("ext", False)), muxId="0"))
         await self._wait_idle()           # _run_rtp reached its first recv(): both random origins are drawn
         self.transport.take()
@@ -448,13 +570,16 @@ class SenderRig:
             await self.sender.stop()
         finally:
             rs.random_sequence_number, rs.random32, rs.get_encoder = self._saved
+            self.clk.restore()
 
 
 class ReceiverRig:
     """A real video RTCRtpReceiver; decoder_worker replaced so that the decoder queue can be read."""
 
-    def __init__(self, cfg):
+    def __init__(self, cfg, clk=None):
         self.cfg = cfg
+        self.clk = clk or Clock()
+        self._own_clk = clk is None
 
     async def start(self):
         import aiortc.rtcrtpreceiver as rr
@@ -465,15 +590,14 @@ class ReceiverRig:
         evt = self._stop_evt
         self._saved = rr.decoder_worker
         rr.decoder_worker = lambda loop, input_q, output_q: evt.wait()
+        self.clk.install(rr)
         self.transport = FakeTransport()
         self.receiver = rr.RTCRtpReceiver("video", self.transport)
         self.receiver._track = rr.RemoteStreamTrack(kind="video")
         if cfg.get("rtcp_ssrc") is not None:
             self.receiver._set_rtcp_ssrc(cfg["rtcp_ssrc"])
         if "codecs" in cfg:      # explicit table: [[pt, name, apt|None], ...]
-            mimes = {"vp8": "video/VP8", "h264": "video/H264", "rtx": "video/rtx", "other": "video/other"}
-            codecs = [RTCRtpCodecParameters(mimeType=mimes[nm], clockRate=90000, payloadType=pt,
-                                            parameters=({} if apt is None else {"apt": apt})) for pt, nm, apt in cfg["codecs"]]
+            codecs = table_params(cfg["codecs"])
         else:
             codecs = _codec_params(cfg.get("codec", "vp8"), cfg["rtx"])
         encodings = []
@@ -507,7 +631,11 @@ class ReceiverRig:
 
     async def stop(self):
         self._stop_evt.set()
-        await self.receiver.stop()
+        try:
+            await self.receiver.stop()
+        finally:
+            if self._own_clk:
+                self.clk.restore()
 
 
 def _show_res(fbs, items):
@@ -596,7 +724,7 @@ def origins(rng):
 class Sender(_Cached):
     name = "sender"
     theorems = ["packetise_seq", "packetise_fields", "history_hit", "history_miss", "history_last128", "retransmit_verbatim",
-                "retransmit_rtx_invertible", "rtx_seq_counter"]
+                "retransmit_rtx_invertible", "rtx_seq_counter", "rtxFor_spec"]
 
     def corpus(self):
         one = ["10aa"]
@@ -607,6 +735,16 @@ class Sender(_Cached):
              "ops": [["f", i, one] for i in range(130)] + [["k", [0, 1, 2, 129, 128, 65536 + 129, -127]]]},
             {"seq0": 5, "rtx_seq0": 7, "ts0": 0, "ssrc": 1, "rtx_ssrc": 2, "rtx": True, "ext": False,
              "ops": [["k", [5]], ["f", 9, []], ["f", 10, one], ["k", [5, 5]]]},
+            # the NACK comes long after the send (pause / still scene): age is no reason not to resend
+            {"seq0": 9, "rtx_seq0": 7, "ts0": 0, "ssrc": 1, "rtx_ssrc": 2, "rtx": False, "ext": False,
+             "ops": [["f", 0, one], ["t", 0.5], ["k", [9]], ["t", 10.0], ["k", [9]], ["f", 1, one], ["t", 3600.0], ["r", 10]]},
+            # only ANOTHER codec has rtx (listed before its base codec): verbatim retransmission
+            {"seq0": 9, "rtx_seq0": 7, "ts0": 0, "ssrc": 1, "rtx_ssrc": 2, "ext": False,
+             "codecs": [[96, "h264", None], [99, "rtx", 98], [98, "vp8", None]], "ops": [["f", 0, ["65aa"]], ["k", [9]]]},
+            # foreign rtx first, then two rtx entries for the sending codec
+            {"seq0": 9, "rtx_seq0": 7, "ts0": 0, "ssrc": 1, "rtx_ssrc": 2, "ext": False,
+             "codecs": [[96, "vp8", None], [99, "rtx", 98], [97, "rtx", 96], [98, "h264", None], [101, "rtx", 96]],
+             "ops": [["f", 0, one], ["k", [9]]]},
         ]
 
     def cases(self, rng, tier):
@@ -615,15 +753,19 @@ class Sender(_Cached):
         for _ in range(n):
             seq0, ts0, rtx_seq0 = origins(rng)
             case = {"seq0": seq0, "rtx_seq0": rtx_seq0, "ts0": ts0, "ssrc": rng.choice([1, 1234, M32 - 1]),
-                    "rtx_ssrc": rng.choice([2, 2345, M32 - 2]), "rtx": rng.randrange(2) == 0, "ext": rng.randrange(3) == 0, "ops": []}
+                    "rtx_ssrc": rng.choice([2, 2345, M32 - 2]), "codecs": codec_shapes(rng), "ext": rng.randrange(3) == 0, "ops": []}
+            mk_payloads = vp8_payloads if case["codecs"][0][1] == "vp8" else h264_payloads
+            timed = rng.randrange(2) == 0     # does wall-clock time pass between the events of this case?
             sent = []   # sequence numbers sent so far
             enc_ts = rng.choice([0, 5, 1 << 31, M32 - 1, -3000])
             nops = rng.choice([5, 20, 60]) if tier == "quick" else rng.choice([5, 20, 60, 200])
             for _ in range(nops):
+                if timed and rng.randrange(3) == 0:
+                    case["ops"].append(["t", rng.choice(CLOCK_STEPS)])
                 m = rng.randrange(10)
                 if m < 6 or not sent:
                     npl = rng.choice([0, 1, 1, 2, 3, 5, 8]) if rng.randrange(8) else rng.choice([40, 127, 128, 129])
-                    pls = [p.hex() for p in vp8_payloads(rng, npl)]
+                    pls = [p.hex() for p in mk_payloads(rng, npl)]
                     case["ops"].append(["f", enc_ts, pls])
                     for _ in range(npl):
                         sent.append((seq0 + len(sent)) % M16)
@@ -656,6 +798,9 @@ class Sender(_Cached):
             steps = []       # (op, [raw bytes])
             try:
                 for op in case["ops"]:
+                    if op[0] == "t":              # wall-clock time passes; nothing is sent or received
+                        rig.clk.now += op[1]
+                        continue
                     if op[0] == "f":
                         raw = await rig.frame(op[1], [bytes.fromhex(h) for h in op[2]])
                     elif op[0] == "k":
@@ -681,10 +826,11 @@ class Sender(_Cached):
                 ops.append("f:%d:%s" % (op[1], "/".join(op[2]) if op[2] else "-"))
             elif op[0] == "k":
                 ops.append("k:" + (".".join(str(x) for x in op[1]) if op[1] else "-"))
-            else:
+            elif op[0] == "r":
                 ops.append("r:%d" % op[1])
-        return "video sender %d %d %d %s %d %d %d %s" % (case["ssrc"], case["rtx_ssrc"], PT, RTX_PT if case["rtx"] else "n",
-                                                         case["ts0"], case["seq0"], case["rtx_seq0"], ";".join(ops) if ops else "-")
+            # "t": the model's history has no notion of age
+        return "video sender %d %d %s %d %d %d %s" % (case["ssrc"], case["rtx_ssrc"], table_send_line(codec_table(case)),
+                                                      case["ts0"], case["seq0"], case["rtx_seq0"], ";".join(ops) if ops else "-")
 
     def oracle(self, case, impl_out):
         obs = self.observe(case)
@@ -702,7 +848,10 @@ class Sender(_Cached):
                 want = 1 if op[0] == "r" else len(op[1])
                 hit += len(raw)
                 miss += want - len(raw)
-        return ("rtx" if case["rtx"] else "plain") + ("-hit" if hit else "") + ("-miss" if miss else "")
+        t = codec_table(case)
+        shape = ("rtx" if negotiated_rtx(t) else "plain") + ("+foreign" if any(nm == "rtx" and apt != t[0][0] for _, nm, apt in t) else "")
+        aged = "-aged" if any(op[0] == "t" and op[1] >= 1.0 for op in case["ops"]) else ""
+        return shape + aged + ("-hit" if hit else "") + ("-miss" if miss else "")
 
     def shrink(self, case):
         ops = case["ops"]
@@ -716,12 +865,18 @@ class Sender(_Cached):
                 yield dict(case, ops=ops[:i] + [["f", op[1], op[2][:-1]]] + ops[i + 1:])
         if case["ext"]:
             yield dict(case, ext=False)
+        t = codec_table(case)
+        for i in range(1, len(t)):
+            yield dict(case, codecs=t[:i] + t[i + 1:])
 
 
 def sender_oracle(case, steps, rig):
     """The sender clauses of C11 on the wire output of the real sender.
     steps: [(op, [raw bytes], [parsed packets])] where op is ["f", enc_ts, payloads] / ["k", lost] / ["r", s]."""
     from aiortc.rtp import unwrap_rtx
+    table = codec_table(case)
+    send_pt = table[0][0]
+    rtx_pts = negotiated_rtx(table)      # RTX iff an rtx codec with apt = the sending payload type was negotiated
     sent = []          # (seq, raw bytes) of every first transmission, in order
     nrtx = 0
     for op, raw, pk in steps:
@@ -738,7 +893,7 @@ def sender_oracle(case, steps, rig):
                     return f"packet {i} of a frame has timestamp {p.timestamp}, expected {ts} for every packet of the frame"
                 if p.marker != (1 if i == len(pls) - 1 else 0):
                     return f"marker bit is {p.marker} on payload {i} of {len(pls)}"
-                if p.payload != pls[i] or p.payload_type != PT or p.ssrc != case["ssrc"]:
+                if p.payload != pls[i] or p.payload_type != send_pt or p.ssrc != case["ssrc"]:
                     return f"payload {i} / payload type / ssrc of the frame changed on the wire"
                 sent.append((p.sequence_number, d))
         else:
@@ -753,18 +908,20 @@ def sender_oracle(case, steps, rig):
                         return f"sequence number {s} is among the last {HIST} sent but was not retransmitted"
                     d, p = raw[k], pk[k]
                     k += 1
-                    if case["rtx"]:
+                    if rtx_pts:
                         want = (case["rtx_seq0"] + nrtx) % M16
                         nrtx += 1
-                        if p.payload_type != RTX_PT or p.ssrc != case["rtx_ssrc"]:
-                            return f"retransmission of {s} is not an RTX packet (pt {p.payload_type}, ssrc {p.ssrc})"
+                        if p.payload_type not in rtx_pts or p.ssrc != case["rtx_ssrc"]:
+                            return (f"retransmission of {s} is not the RTX negotiated for payload type {send_pt} "
+                                    f"(pt {p.payload_type}, ssrc {p.ssrc}; negotiated rtx pt {rtx_pts})")
                         if p.sequence_number != want:
                             return f"RTX sequence number {p.sequence_number}, expected {want}"
-                        back = unwrap_rtx(p, payload_type=PT, ssrc=case["ssrc"])
+                        back = unwrap_rtx(p, payload_type=send_pt, ssrc=case["ssrc"])
                         if back.serialize(rig.transport._rtp_header_extensions_map) != window[s]:
                             return f"unwrap_rtx of the retransmission of {s} is not the packet that was sent"
                     elif d != window[s]:
-                        return f"retransmission of {s} is not byte-identical to the original"
+                        return (f"retransmission of {s} is not byte-identical to the original although no RTX was negotiated for "
+                                f"payload type {send_pt} (codecs {table}; got pt {p.payload_type}, ssrc {p.ssrc})")
             if k != len(raw):
                 extra = pk[k]
                 return (f"retransmitted a packet (seq {extra.sequence_number}) for a request outside the last {HIST} sequence numbers sent "
@@ -954,6 +1111,16 @@ class Pair(_Cached):
             {"fam": "recover", "codec": "h264", "seq0": 65530, "rtx_seq0": 3, "ts0": 0, "rtx": True, "ext": False,
              "frames": [f(0, "65aa"), f(10, "7c8501", "7c0502", "7c4503"), f(20, "65bb"), f(30, "65cc"), f(40, "65dd")],
              "net": [["d"], [["h", 2], "2", "d"], ["d"], ["d"], ["d"]], "drain": 2, "rnet": [], "fbnet": []},
+            # tail loss before a pause: the last packet before a 3 s pause is lost, the gap shows (and the NACK is sent) only
+            # when the next frame arrives; the packet is one packet old in the history and must still be resent
+            {"fam": "recover", "codec": "vp8", "seq0": 100, "rtx_seq0": 1, "ts0": 5, "rtx": True, "ext": False,
+             "frames": [f(0, "10a1", "00a2"), f(3000, "10b1"), f(273000, "10c1"), f(276000, "10d1"), f(279000, "10e1")],
+             "net": [["d", "d"], ["x"], ["d"], ["d"], ["d"]], "drain": 2, "rnet": [], "fbnet": [],
+             "clk": {"f": [0, 0.03, 3.0, 0.03, 0.03], "fb": [], "d": []}},
+            # H264 preferred without rtx, RTX negotiated for VP8 only: lost H264 packets come back verbatim
+            {"fam": "recover", "codecs": [[96, "h264", None], [98, "vp8", None], [99, "rtx", 98]], "seq0": 7, "rtx_seq0": 1, "ts0": 5,
+             "ext": False, "frames": [f(0, "65a1"), f(10, "7c8501", "7c0502", "7c4503"), f(20, "65bb"), f(30, "65cc"), f(40, "65dd")],
+             "net": [["d"], ["d", "x", "d"], ["d"], ["d"], ["d"]], "drain": 2, "rnet": [], "fbnet": []},
         ]
 
     def cases(self, rng, tier):
@@ -961,7 +1128,8 @@ class Pair(_Cached):
         out = []
         for k in range(n):
             fam = ["clean", "recover", "recover", "recover", "chaos", "chaos", "late"][k % 7]
-            codec = "h264" if k % 5 == 4 else "vp8"
+            table = codec_shapes(rng)
+            codec = table[0][1]
             seq0, ts0, rtx_seq0 = origins(rng)
             nfr = rng.choice([6, 15, 40]) if tier == "quick" else rng.choice([6, 15, 40, 120])
             if fam == "late":
@@ -1030,23 +1198,31 @@ class Pair(_Cached):
             # per-frame action lists (so that shrinking a frame away removes its actions too); missing entries = deliver
             it = iter(net)
             net = [[next(it, "d") for _ in pl] for _, pl in frames]
-            out.append({"fam": fam, "codec": codec, "seq0": seq0, "rtx_seq0": rtx_seq0, "ts0": ts0, "rtx": k % 2 == 0,
-                        "ext": k % 3 == 0, "frames": frames, "net": net, "drain": drain, "rnet": rnet, "fbnet": fbnet})
+            clk = {}
+            if k % 2 == 1:     # wall-clock time passes: sender pauses, late feedback, slow deliveries (0 … 10 s each)
+                dens = rng.choice([0.05, 0.3])
+                step = lambda: rng.choice(CLOCK_STEPS) if rng.random() < dens else 0.0
+                clk = {"f": [step() for _ in frames], "fb": [step() for _ in range(norig)], "d": [step() for _ in range(2 * norig)]}
+            out.append({"fam": fam, "codecs": table, "seq0": seq0, "rtx_seq0": rtx_seq0, "ts0": ts0,
+                        "ext": k % 3 == 0, "frames": frames, "net": net, "drain": drain, "rnet": rnet, "fbnet": fbnet, "clk": clk})
         return out
 
     # -- running the real pair ------------------------------------------------------------------
     def _observe(self, case):
         scfg = {"seq0": case["seq0"], "rtx_seq0": case["rtx_seq0"], "ts0": case["ts0"], "ssrc": self.SSRC, "rtx_ssrc": self.RTX_SSRC,
-                "rtx": case["rtx"], "ext": case["ext"], "codec": case["codec"]}
-        rcfg = {"rtx": case["rtx"], "ext": case["ext"], "codec": case["codec"], "rtcp_ssrc": RTCP_SSRC,
-                "rtxmap": [[self.RTX_SSRC, self.SSRC]] if case["rtx"] else []}
+                "ext": case["ext"], "codecs": codec_table(case)}
+        table = codec_table(case)
+        send_pt = table[0][0]
+        rcfg = {"ext": case["ext"], "codecs": table, "rtcp_ssrc": RTCP_SSRC, "rtxmap": self._rtxmap(table)}
+        clkf, clkfb, clkd = (case.get("clk") or {}).get("f", []), (case.get("clk") or {}).get("fb", []), (case.get("clk") or {}).get("d", [])
         net = [a for fr in case["net"] for a in fr]
         rnet, fbnet = case["rnet"], case["fbnet"]
 
         async def go():
             from aiortc.rtp import RtcpRtpfbPacket, unwrap_rtx
-            srig = SenderRig(scfg)
-            rrig = ReceiverRig(rcfg)
+            clk = Clock()                 # one wall clock for both ends, advanced only by the script
+            srig = SenderRig(scfg, clk)
+            rrig = ReceiverRig(rcfg, clk)
             await srig.start()
             await rrig.start()
             sender_steps = []          # [op, raw, parsed]
@@ -1059,6 +1235,8 @@ class Pair(_Cached):
 
             async def deliver(raw, oi):
                 pkt = RtpPacketParse(raw, rrig)      # as RTCDtlsTransport._handle_rtp_data does
+                if counters["t"] < len(clkd):
+                    clk.now += clkd[counters["t"]]           # transit time of this delivery (first transmission or RTX)
                 counters["t"] += 1
                 fbs, items, fwd = await rrig.feed(pkt, counters["t"])
                 recv_steps.append({"pkt": pkt, "oi": oi, "fbs": fbs, "items": items})
@@ -1068,14 +1246,16 @@ class Pair(_Cached):
                     counters["fb"] += 1
                     if k < len(fbnet) and not fbnet[k]:
                         continue
+                    if k < len(clkfb):
+                        clk.now += clkfb[k]                      # the feedback arrives late
                     raw_out = await srig.rtcp(fb)
                     if isinstance(fb, RtcpRtpfbPacket):
                         sender_steps.append([["k", list(fb.lost)], raw_out, [srig.parse(d) for d in raw_out]])
                         for d in raw_out:
                             p = srig.parse(d)
                             s = p.sequence_number
-                            if case["rtx"]:
-                                s = unwrap_rtx(p, payload_type=PT, ssrc=self.SSRC).sequence_number
+                            if p.payload_type != send_pt and len(p.payload) >= 2:      # some RTX wrapping
+                                s = unwrap_rtx(p, payload_type=send_pt, ssrc=self.SSRC).sequence_number
                             new.append((d, seq_to_oi.get(s), True))
                 return new
 
@@ -1108,7 +1288,9 @@ class Pair(_Cached):
 
             try:
                 try:
-                    for enc_ts, pls in case["frames"]:
+                    for fi, (enc_ts, pls) in enumerate(case["frames"]):
+                        if fi < len(clkf):
+                            clk.now += clkf[fi]                  # sender pause before this frame
                         raw = await srig.frame(enc_ts, [bytes.fromhex(h) for h in pls])
                         parsed = [srig.parse(d) for d in raw]
                         sender_steps.append([["f", enc_ts, pls], raw, parsed])
@@ -1153,12 +1335,16 @@ class Pair(_Cached):
                 ops.append("f:%d:%s" % (op[1], "/".join(op[2]) if op[2] else "-"))
             else:
                 ops.append("k:" + (".".join(str(x) for x in op[1]) if op[1] else "-"))
-        codecs = "%d:%s:n" % (PT, case["codec"]) + (",%d:rtx:%d" % (RTX_PT, PT) if case["rtx"] else "")
-        rtxmap = "%d:%d" % (self.RTX_SSRC, self.SSRC) if case["rtx"] else "-"
+        table = codec_table(case)
+        rtxmap = ",".join("%d:%d" % (a, b) for a, b in self._rtxmap(table)) or "-"
         pk = ";".join(_show_pkt(st["pkt"]) for st in obs["r"]) or "-"
-        return "video pair %d %d %d %s %d %d %d %s %s %s %d 1 %s" % (
-            self.SSRC, self.RTX_SSRC, PT, RTX_PT if case["rtx"] else "n", case["ts0"], case["seq0"], case["rtx_seq0"],
-            ";".join(ops) if ops else "-", codecs, rtxmap, RTCP_SSRC, pk)
+        return "video pair %d %d %s %d %d %d %s %s %s %d 1 %s" % (
+            self.SSRC, self.RTX_SSRC, table_send_line(table), case["ts0"], case["seq0"], case["rtx_seq0"],
+            ";".join(ops) if ops else "-", table_recv_line(table), rtxmap, RTCP_SSRC, pk)
+
+    def _rtxmap(self, table):
+        """the receiver learns the RTX SSRC of the stream whenever the negotiated list has any rtx codec"""
+        return [[self.RTX_SSRC, self.SSRC]] if any(nm == "rtx" for _, nm, _ in table) else []
 
     # -- the property on the implementation -------------------------------------------------------
     def oracle(self, case, impl_out):
@@ -1171,10 +1357,11 @@ class Pair(_Cached):
             return "the send/receive path raised: " + obs["err"]
         # sender clauses on the wire
         r = sender_oracle({"seq0": case["seq0"], "rtx_seq0": case["rtx_seq0"], "ts0": case["ts0"], "ssrc": self.SSRC,
-                           "rtx_ssrc": self.RTX_SSRC, "rtx": case["rtx"]}, obs["s"], obs["rig"])
+                           "rtx_ssrc": self.RTX_SSRC, "codecs": codec_table(case)}, obs["s"], obs["rig"])
         if r:
             return r
-        codec = _codec_params(case["codec"], False)[0]
+        codec = table_params(codec_table(case))[0]
+        send_pt = codec_table(case)[0][0]
         # what the sender packetised: per frame the depayloaded packets
         frames = []
         for op, raw, pk in obs["s"]:
@@ -1220,7 +1407,7 @@ class Pair(_Cached):
             if len(st["items"]) > 1:
                 return "more than one frame entered the decoder queue in one call"
             for pt, ts, data in st["items"]:
-                if pt != PT:
+                if pt != send_pt:
                     return f"decoder item carries codec payload type {pt}"
                 ks = whole.get(data)
                 if ks is None:
@@ -1263,7 +1450,8 @@ class Pair(_Cached):
         rt = sum(len(raw) for op, raw, _ in obs["s"] if op[0] == "k")
         pli = sum(1 for st in obs["r"] for fb in st["fbs"] if fb.startswith("P"))
         wrap = "wrap" if case["seq0"] + sum(len(pl) for _, pl in case["frames"]) >= M16 else "nowrap"
-        return "%s-%s-%s%s%s-%s" % (case["fam"], "rtx" if case["rtx"] else "plain", "nack" if nk else "nonack",
+        return "%s-%s-%s%s%s-%s" % (case["fam"], ("rtx" if negotiated_rtx(codec_table(case)) else "plain") + ("+foreign" if any(nm == "rtx" and apt != codec_table(case)[0][0] for _, nm, apt in codec_table(case)) else "")
+                                   + ("-aged" if any(x >= 1.0 for l in (case.get("clk") or {}).values() for x in l) else ""), "nack" if nk else "nonack",
                                    "-retx" if rt else "", "-pli" if pli else "", wrap)
 
     def nontrivial(self, case, impl_out):
@@ -1290,6 +1478,16 @@ class Pair(_Cached):
                 yield dict(case, frames=fr[:i] + [[ts, pl[:-1]]] + fr[i + 1:], net=net[:i] + [net[i][:-1]] + net[i + 1:])
         if case["ext"]:
             yield dict(case, ext=False)
+        clk = case.get("clk") or {}
+        if any(x for l in clk.values() for x in l):
+            yield dict(case, clk={})
+            for key, l in clk.items():
+                for i, x in enumerate(l):
+                    if x:
+                        yield dict(case, clk=dict(clk, **{key: l[:i] + [0.0] + l[i + 1:]}))
+        t = codec_table(case)
+        for i in range(1, len(t)):
+            yield dict(case, codecs=t[:i] + t[i + 1:])
 
 
 def components(tier):
